@@ -1022,6 +1022,15 @@ func init() {
 					units = append(units, Unit{"VerifC19Version", []string{"version", p[0], p[1], n}})
 				}
 			}
+			// components of many digits (values that do not fit 64 bits must be rejected, not wrapped)
+			// (most digits concrete: every symbolic digit forks the interpreted ParseInt at its overflow tests)
+			z17 := strings.Repeat("0", 17)
+			for _, p := range [][2]string{{"d" + z17 + "d", "d"}, {"d.d" + z17 + "0d", "d.d"}, {"9223372036854775808", "d"}, {"922337203685477580d", "d"}, {"d.18446744073709551617.d", "d.d.d"}, {"d.d.184467440737095516dd", "d.d.d"},
+				{"d.d.d.1" + z17 + "d", "d.d.d.d"}, {"0000000000000000dddd", "dddd"}} {
+				for _, n := range []string{"", "4"} {
+					units = append(units, Unit{"VerifC19Version", []string{"version", p[0], p[1], n}})
+				}
+			}
 			for _, op := range []string{"t_version", "to_version"} {
 				units = append(units, Unit{"VerifC19Version", []string{op, "d.dddd.d", "dddd.d.d", ""}}, Unit{"VerifC19Version", []string{op, "d.d.d.d", "d.d.d.d", "4"}})
 			}
@@ -1046,7 +1055,7 @@ func init() {
 		},
 		Reach: []string{"ordered", "less", "equal", "too-large", "nondigit", "empty", "bad-length", "good-length", "types", "date", "date-sym"},
 		Bounds: func(tier string) map[string]interface{} {
-			return map[string]interface{}{"versions": "pairs of texts with 1..5 components of 1, 4 or 5 arbitrary decimal digits each (solver variables; 9999/10000/99999 reachable), valid length default and 1..4",
+			return map[string]interface{}{"versions": "pairs of texts with 1..5 components of 1, 4 or 5 arbitrary decimal digits each (solver variables; 9999/10000/99999 reachable), valid length default and 1..4; components of 19 and 20 digits (first / last digits arbitrary, around 2^63 and 2^64, leading zeros) (must be rejected unless the value is ≤ 9999, i.e. all leading digits are zero)",
 				"dates": "layout selection for EVERY text (time.Parse uninterpreted) for all 8 operators with default and supplied layouts; 132 concrete texts against Unix seconds computed independently (Python calendar.timegm) across epoch, leap-year, century, 2038 and year-1/9999 boundaries"}
 		},
 		Rule: "version units: one per (operator, skeleton pair, valid length); the order query is decided by cvc5 with --solve-bv-as-int=sum (bit-blasting res*10000+v times out); date units: concrete table + symbolic layout-selection units",
